@@ -177,6 +177,8 @@ def decide(prop, tier, repo, seed, only_units=None, quiet=False):
             print("UNDECIDED: no unit serves property %s" % prop)
             return 2
         undecided = []
+        fallback_violations = []
+        bounded_runs = []
         obligations = []   # dicts
         violations = []
         known_hits = []
@@ -192,6 +194,20 @@ def decide(prop, tier, repo, seed, only_units=None, quiet=False):
             can = results[(name, "canary")]
             if main.undecided:
                 undecided.append("unit %s: %s" % (name, main.undecided))
+                fb = u.get("fallback")
+                if fb and prop in fb.get("properties", u["properties"]):
+                    # bounded stand-in (never counted as proved): the contract is replayed natively on the real code over a stated, bounded input space
+                    import native
+                    try:
+                        rc, out = native.run_native([(fb["module_file"], os.path.join(VERIF, "units", name, fb["test"]))], fb["filter"], repo=repo)
+                    except Exception as e:
+                        rc, out = None, str(e)
+                    bounded_runs.append({"unit": name, "bound": fb["bound"], "ran": rc is not None, "passed": rc == 0, "label": "bounded stand-in, not proof"})
+                    if rc is not None and rc != 0 and "panicked" in out:
+                        msg = [l for l in out.split("\n") if "VX-FALLBACK" in l or "panicked" in l][:4]
+                        fallback_violations.append((name, fb, msg, out))
+                    elif rc == 0:
+                        undecided.append("unit %s: bounded fallback (%s) found no failing input; still undecided" % (name, fb["bound"]))
                 continue
             smt_ms += main.smt_ms
             cmds.append(main.cmd)
@@ -301,11 +317,24 @@ def decide(prop, tier, repo, seed, only_units=None, quiet=False):
                                     "no concrete failing input is produced by this back end.", cex)
                 out_lines.append("obligation failed: %s/%s — %s" % (name, f, "; ".join(sorted(set(e["msg"] + (" :: " + e["clause"] if e["clause"] else "") for e in errs)))[:600]))
                 out_lines.append("VIOLATION property=%s replay=%s %s" % (prop, path, note))
-        elif undecided:
+        if fallback_violations:
+            status = 1
+            for (name, fb, msg, out) in fallback_violations:
+                os.makedirs(os.path.join(VERIF, "replays"), exist_ok=True)
+                h = hashlib.sha256(out.encode()).hexdigest()[:10]
+                path = os.path.join(VERIF, "replays", "%s-%s-fallback-%s.json" % (prop, name, h))
+                json.dump({"property": prop, "unit": name, "failed_obligation": "bounded native replay of the unit's contracts (%s)" % fb["bound"],
+                           "reason": "the deductive check of this unit is undecided on the current source (unsupported construct / lost anchor); the contracts were replayed natively on the real code",
+                           "failing_input": msg, "native_output_tail": out[-3000:],
+                           "how_to_replay": "cd /verif && python3 lib/native.py %s units/%s/%s %s" % (fb["module_file"], name, fb["test"], fb["filter"])}, open(path, "w"), indent=1)
+                out_lines.append("bounded stand-in failed for unit %s: %s" % (name, " | ".join(msg)[:500]))
+                out_lines.append("VIOLATION property=%s replay=%s" % (prop, path))
+                ev["violations"] = ev.get("violations", 0) + 1
+        if status != 1 and undecided:
             status = 2
         n_obl = len([o for o in obligations if not o.get("known_finding")])
         n_dis = len([o for o in obligations if o["discharged"] and not o.get("known_finding")])
-        ev["violations"] = len(violations)
+        ev["violations"] = len(violations) + len(fallback_violations)
         ev["wall_s"] = round(time.time() - t0, 2)
         samples = [o for o in obligations[:3]]
         cov = {
@@ -315,6 +344,7 @@ def decide(prop, tier, repo, seed, only_units=None, quiet=False):
             "obligation_unit": "one Verus function-level SMT query (exec function with its contract and loop invariants, or proof lemma); overflow/bounds/termination conditions of a function are part of its query",
             "obligation_list": obligations,
             "known_finding_obligations": [o["name"] for o in obligations if o.get("known_finding")],
+            "bounded": bounded_runs,
             "functions_under_contract": fn_under_contract,
             "transformations": transformations,
             "vacuity": {"canaries_that_failed_as_required": len(vac), "rule": "each contracted function is duplicated with `ensures false`; the duplicate must NOT verify"},
